@@ -41,8 +41,8 @@ def run(tier, v):
         raise vlib.Infra("non-vacuity: without the receiver's digest compare the model should violate NoSilentCorruption, got %s" % table["md5_r"])
     h = vlib.build_harness(["e2e", "c02"])
     out = os.path.join(vlib.scratch(), "c02")
-    params = {"shards": 96, "per_message": 3, "thorough": False} if quick else \
-             {"shards": 96, "per_message": 10, "thorough": True, "random_double": 400}
+    params = {"shards": 192, "per_message": 3, "thorough": False} if quick else \
+             {"shards": 192, "per_message": 10, "thorough": True, "random_double": 400}
     s = vlib.run_driver(h, "c02_faults", out, params, timeout=3400)
     files, details = E.gather(out)
     bad, _, st = E.judge(files, "TransferObs", "TransferObs_c02.cfg", v, details, "obs", keyfn=keyfn, timeout=3000)
